@@ -25,12 +25,14 @@ func init() {
 		Plan: func(tier string, seed int64) []Batch {
 			var bs []Batch
 			bs = append(bs, Batch{Name: "product", Args: map[string]string{"mode": "product"}})
-			n := 4
+			n := 8
 			if tier == "thorough" {
 				n = 14
 			}
 			bs = append(bs, splitBatches("prng", n, false, 1, map[string]string{"mode": "prng"})...)
-			bs = append(bs, Batch{Name: "wire", Args: map[string]string{"mode": "wire"}, Race: true, Procs: 4})
+			for i := 0; i < 4; i++ {
+				bs = append(bs, Batch{Name: fmt.Sprintf("wire-%d", i), Args: map[string]string{"mode": "wire", "part": fmt.Sprint(i), "parts": "4"}, Race: true, Procs: 4})
+			}
 			return bs
 		},
 		Run: runC01,
@@ -146,7 +148,7 @@ func runC01(c *Ctx) {
 		c.R.Exhaustive["product(3 tag sections x 5 sources x 6 verbs x middle lists<=3 over 7 x 6 trailings + CTCP forms)"] = c.Only == ""
 	case "prng":
 		part, parts := c.ArgInt("part", 0), c.ArgInt("parts", 1)
-		total := c.Pick(400_000, 24_000_000)
+		total := c.Pick(2_400_000, 40_000_000)
 		per := total / parts
 		for i := 0; i < per; i++ {
 			idx := part*per + i
@@ -164,9 +166,13 @@ func runC01(c *Ctx) {
 // runC01Wire sends messages through a live in-memory connection and
 // compares what a foreground handler for the verb receives.
 func runC01Wire(c *Ctx) {
-	total := c.Pick(4_000, 300_000)
+	total := c.Pick(12_000, 400_000)
 	sessLen := 500
+	part, parts := c.ArgInt("part", 0), c.ArgInt("parts", 1)
 	for base := 0; base < total; base += sessLen {
+		if (base/sessLen)%parts != part {
+			continue
+		}
 		s := NewSession(SessionOpts{Flood: true})
 		mc, err := s.Connect()
 		if err != nil {
@@ -196,8 +202,12 @@ func runC01Wire(c *Ctx) {
 				}
 				break
 			}
+			if r.Intn(40) == 0 && m.HasTrail && !m.CTCP {
+				// longer than the client's 4096-byte read buffer
+				m.Trail += " " + strings.Repeat("L", []int{4000, 4096, 5000, 20000}[r.Intn(4)])
+			}
 			e := m.Expected()
-			c.J.Log("CASE %s %q", Case("wire", idx), e.Raw)
+			c.J.Log("CASE %s %q", Case("wire", idx), clipS(e.Raw))
 			key := strings.ToLower(e.Cmd)
 			if !registered[key] {
 				registered[key] = true
